@@ -11,6 +11,7 @@ import {
   IDiffEntry,
   IDiffObjectEntry,
   IDiffPatch,
+  opAdd,
   opRemove,
   opReplace,
   opRemoveRange,
@@ -498,7 +499,22 @@ function resolveAction(base: any, decision: MergeDecision): IDiffEntry[] {
         key = d.key;
       }
     }
-    if (key) {
+    if (
+      key &&
+      base !== null &&
+      !Array.isArray(base) &&
+      !Object.prototype.hasOwnProperty.call(base, key)
+    ) {
+      // Added on both sides with different values: add it cleared
+      let side =
+        decision.localDiff && decision.localDiff.length > 0
+          ? decision.localDiff
+          : decision.remoteDiff;
+      let added = side && side.length > 0 ? (side[0] as any).value : null;
+      let d = opAdd(key, makeClearedValue(added));
+      d.source = { decision, action: 'custom' };
+      return [d];
+    } else if (key) {
       let d = opReplace(key, makeClearedValue(base[key]));
       d.source = { decision, action: 'custom' };
       return [d];
